@@ -32,7 +32,7 @@ def gen_behaviours(cfg, name):
 def replay(scen, workdir, tag, frag=0, shards=8, scale=1, delay_ms=0, every=1, only=""):
     traces, procs = [], []
     n = sum(1 for _ in open(scen)) // every
-    shards = max(1, min(shards, n // 50))
+    shards = max(1, min(shards, n // 50 if n > 50 else n))
     for i in range(shards):
         tr = os.path.join(workdir, "%s_%d.ndjson" % (tag, i))
         traces.append(tr)
@@ -46,6 +46,23 @@ def replay(scen, workdir, tag, frag=0, shards=8, scale=1, delay_ms=0, every=1, o
             raise ToolError("vh reader-l1 failed (%d): %s" % (p.returncode, e.decode()[-2000:]))
         runs += json.loads(o.decode().strip().splitlines()[-1])["runs"]
     return runs, traces
+
+
+def giant_subset(scen, workdir, tag, count, need_fin=False):
+    """a few of the TLC-generated behaviours that have a run of at least 5 units (for the replays over a virtual archive with units of hundreds of MB)"""
+    out = []
+    for ln in open(scen):
+        sc = json.loads(ln)
+        if sc.get("kind", "chunks") != "chunks" or len(sc["chunks"]) < 2 or not any(r[1] - r[0] + 1 >= 5 for r in sc.get("reqs", [])):
+            continue
+        if need_fin and not (sc["budget"] >= 1 and any(b["how"] == "fin" and b["k"] >= 2 for b in sc["script"]) and sc.get("res") == "done"):
+            continue
+        out.append(ln)
+    step = max(1, len(out) // count)
+    path = os.path.join(workdir, tag + "_scen.ndjson")
+    with open(path, "w") as f:
+        f.writelines(out[(seed() % step)::step][:count])
+    return path
 
 
 def run_reader_check(prop, tier):
@@ -75,6 +92,10 @@ def run_reader_check(prop, tier):
         sets.append(("subsets", p, 0))
         # the same chunk lists with a unit of 3 000 000 bytes: runs of adjacent chunks of 9 - 30 MB (beyond any 8 / 16 MiB staging on the way)
         sets.append(("subsets_scale3000000", p, 0, {"scale": 3000000, "every": 3 if tier == "quick" else 1}))
+        # ... and over a virtual archive with units of 250 MB (a run of more than 1 GiB) and, thorough, 900 MB (more than 4 GiB: 32-bit offsets / lengths)
+        sets.append(("subsets_giant250MB", giant_subset(p, workdir, "giant250", 1 if tier == "quick" else 3), 0, {"scale": 250000000, "shards": 3}))
+        if tier == "thorough":
+            sets.append(("subsets_giant900MB", giant_subset(p, workdir, "giant900", 2), 0, {"scale": 900000000, "shards": 2}))
     else:
         mc("ReaderMC", "ReaderMC_%s.cfg" % tier)
         mc("LocalMC", "LocalMC_mc.cfg")
@@ -86,6 +107,9 @@ def run_reader_check(prop, tier):
         sets.append(("faults_scale70000", p, 0, {"scale": 70000, "every": 3 if tier == "quick" else 1}))
         sets.append(("faults_scale4096_frag3000", p, 3000, {"scale": 4096, "every": 5 if tier == "quick" else 1}))
         sets.append(("faults_scale3000000", p, 0, {"scale": 3000000, "every": 23 if tier == "quick" else 5}))
+        sets.append(("faults_giant250MB", giant_subset(p, workdir, "fgiant250", 1 if tier == "quick" else 3, need_fin=True), 0, {"scale": 250000000, "shards": 3}))
+        if tier == "thorough":
+            sets.append(("faults_giant900MB", giant_subset(p, workdir, "fgiant900", 2, need_fin=True), 0, {"scale": 900000000, "shards": 2}))
         sets.append(("faults_delay15ms", p, 0, {"delay_ms": 15, "every": 6 if tier == "quick" else 2}))
         if tier == "thorough":
             sets.append(("faults_frag2", p, 2))
